@@ -119,6 +119,7 @@ DistWhy(o, want) == IF o.t # "num" THEN o.t ELSE IF want[1] = 0 THEN "nonzero-fo
 Fn2P == <<"DistanceFromPointToLine", "DistanceFromPointToLine(reversed)", "DistanceFromPointToLineString",
           "DistanceFromPointToLineString(xyz)", "PerpendicularDistanceFromPointToLine">>
 Fn2S == <<"DistanceFromLineToLine", "DistanceFromLineToLine(swapped)", "DistanceFromLineToLine(reversed)", "DistanceFromLineToLine(xyz)">>
+Fn2L == <<"DistanceFromPointToLineString(a-b-c)", "DistanceFromPointToLineString(c-b-a)", "DistanceFromPointToLineString(xym,a-b-c)">>
 Fn3P == <<"DistancePointToLine", "DistancePointToLine(reversed)", "Distance">>
 Fn3S == <<"DistanceLineToLine", "DistanceLineToLine(swapped)", "DistanceLineToLine(reversed)">>
 SegClass(a, b, c, d) == IF a = b /\ c = d THEN "both-degenerate" ELSE IF a = b THEN "first-degenerate"
@@ -134,7 +135,11 @@ VDist2(r) ==
   ELSE IF badS # {} THEN LET kf == CHOOSE x \in badS : \A y \in badS : x[1] < y[1] \/ (x[1] = y[1] /\ x[2] <= y[2]) IN
        Bad("dist|xy." \o Fn2S[kf[2]] \o "|" \o DistWhy(r.seg[kf[1]].r[kf[2]], SqDistSegSeg2(a, b, r.seg[kf[1]].c, r.seg[kf[1]].d))
            \o "|" \o SegClass(a, b, r.seg[kf[1]].c, r.seg[kf[1]].d), kf[1])
-  ELSE OK
+  ELSE LET wantL(row) == SqDistPtLineString2(row.p, <<a, b, row.c>>)          \* three-vertex linestrings a-b-c
+           badL == {<<k, f>> \in (DOMAIN r.pls) \X (1..3) : ~DistOK(r.pls[k].r[f], wantL(r.pls[k]))} IN
+       IF badL # {} THEN LET kf == CHOOSE x \in badL : \A y \in badL : x[1] < y[1] \/ (x[1] = y[1] /\ x[2] <= y[2]) IN
+            Bad("dist|xy." \o Fn2L[kf[2]] \o "|" \o DistWhy(r.pls[kf[1]].r[kf[2]], wantL(r.pls[kf[1]])) \o "|three-vertices", kf[1])
+       ELSE OK
 \* which input class a 3-D segment pair falls in (for the signature): where the unconstrained optimum lies
 OptClass(a, b, c, d) ==
   LET u == Sub3(b, a)  v == Sub3(d, c)  w == Sub3(a, c)
